@@ -196,7 +196,9 @@ def check_glyph(font, glyphSet, hbf, ft_get, name, gid, loc, acc, case, kinds, d
             acc.fail("outline", vote, "%s glyph %r gid %d loc %r: %s" % (case["fid"], name, gid, loc, detail), case)
     # advances
     hadv = hbf.h_advance(gid)
-    if width is None or abs(width - hadv) > ADV_TOL:
+    if width is not None and width < 0 and hadv == 0:
+        acc.label("advance:negative-at-location(clamped by the shaper, not compared)")
+    elif width is None or abs(width - hadv) > ADV_TOL:
         vote = "no-third-vote"
         ft = ft_get()
         if ft is not None:
@@ -213,7 +215,10 @@ def check_glyph(font, glyphSet, hbf, ft_get, name, gid, loc, acc, case, kinds, d
             acc.fail("advance", "h-advance", "%s glyph %r gid %d loc %r: fontTools %r, HarfBuzz %r (%s)" % (case["fid"], name, gid, loc, width, hadv, vote), case)
     if "vmtx" in font and height is not None:
         vadv = -hbf.v_advance(gid)
-        if abs(height - vadv) > ADV_TOL:
+        if height < 0 and vadv == 0:
+            # the variation data drive the advance below zero at this location; shapers clamp it, there is no true value
+            acc.label("advance:negative-at-location(clamped by the shaper, not compared)")
+        elif abs(height - vadv) > ADV_TOL:
             acc.fail("advance", "v-advance", "%s glyph %r gid %d loc %r: fontTools %r, HarfBuzz %r" % (case["fid"], name, gid, loc, height, vadv), case)
     return len(A)
 
